@@ -11,7 +11,9 @@ PTO = 0 is LO -- and evident from their names)
         evolution method EXA / EXP / TRN -> iterate-exact / iterate-expanded / truncated, other names unchanged
   archive(version)           an archive whose metadata, theory and operator cards are laid out as data version 1 (written by 0.13) or 2 (written by 0.14) -- layout
         inferred from the keys the converters read: couplings.scale / num_flavs_ref, heavy.num_flavs_init, operator mu0, metadata bases.xgrid -- is read by EKO.read
-        into cards with reference = (scale, num_flavs_ref), init = (mu0, num_flavs_init), the same x-grid, orders, couplings, masses, ratios, xif and evolution points
+        into cards with reference = (scale, num_flavs_ref), init = (mu0, num_flavs_init), the same x-grid, orders, couplings, masses, ratios, xif and evolution points,
+        and every other setting of the two cards equal to the stored one (matching order (1,0), 2 integration cores, 7 iterations in the input), except that a 0.13 archive, which had
+        no matching order / number of cores, reads as matching order (0,0) and 1 core
 Input set: 96 legacy card pairs (PTO 0-3 x QED 0-2 x POLE / MSBAR x nf0 given / None x mugrid / Q2grid / mu2grid x ev_op_max_order int / list x 4 ModEv names, covering
 sample) and 3 archives (current layout; data version 1 written by 0.13.x; data version 1 written by 0.14.x, which the loader treats as version 2).  NOT covered: real archives written
 by 0.13 / 0.14 (none available offline), the operators inside them.
@@ -125,6 +127,9 @@ def current_archive(tmp):
     op = cards.example.operator()
     op.init = (1.65, 4)
     op.mugrid = [(10.0, 5), (100.0, 5)]
+    th.matching_order = (1, 0)                     # not the values a converter would fill in
+    op.configs.n_integration_cores = 2
+    op.configs.ev_op_iterations = 7
     path = tmp / "current.tar"
     with eko.EKO.create(path) as b:
         b.load_cards(th, op).build()
@@ -165,6 +170,21 @@ def as_old(path, tmp, version, data_version):
     return out
 
 
+def flat(prefix, v):
+    """nested raw card -> {dotted path: leaf}"""
+    if isinstance(v, dict):
+        out = {}
+        for k_, x in v.items():
+            out.update(flat(f"{prefix}.{k_}", x))
+        return out
+    if isinstance(v, (list, tuple)) or hasattr(v, "tolist"):
+        out = {}
+        for i, x in enumerate(list(v.tolist() if hasattr(v, "tolist") else v)):
+            out.update(flat(f"{prefix}[{i}]", x))
+        return out
+    return {prefix: v}
+
+
 @deal.ensure(lambda label, path, th, op, result: result == [], message="cards read from the legacy archive do not carry the stored settings")
 def archive(label, path, th, op):
     bad = []
@@ -179,6 +199,19 @@ def archive(label, path, th, op):
         for what, got, exp in pairs:
             if got != exp:
                 bad.append(f"{what}: {got!r}, stored {exp!r}")
+        # every other setting of the two cards: equal to the stored one, except the two settings a 0.13 archive did not have (they get the value that version used)
+        defaults = {"theory.matching_order": [0, 0], "operator.configs.n_integration_cores": 1} if label.startswith("0.13") else {}
+        got_all = dict(flat("theory", t.raw), **flat("operator", o.raw))
+        exp_all = dict(flat("theory", th.raw), **flat("operator", op.raw))
+        for k_, v_ in defaults.items():
+            for kk in [x for x in exp_all if x == k_ or x.startswith(k_ + "[")]:
+                del exp_all[kk]
+            exp_all.update(flat(k_, v_))
+        for k_ in sorted(set(got_all) | set(exp_all)):
+            g_, e_ = got_all.get(k_, "<missing>"), exp_all.get(k_, "<missing>")
+            both_nan = isinstance(g_, float) and isinstance(e_, float) and math.isnan(g_) and math.isnan(e_)
+            if not (close(g_, e_) or both_nan):
+                bad.append(f"{k_}: {g_!r}, stored {e_!r}")
     if bad:
         raise AssertionError("; ".join(bad[:3]))
     return bad
